@@ -96,7 +96,14 @@ func asJmap(v interface{}) jmap {
 }
 
 // runWatched runs the scenario with a watchdog; a run that does not return is reported as "hang".
+// c11Runaways counts runs that did not end (unbounded recursion / iteration in the library): after a few of them the
+// defect is established and reported with its inputs; every further run of this kind would cost seconds.
+var c11Runaways int
+
 func runWatched(sc *scenario) runResult {
+	if c11Runaways > 3 {
+		return runResult{Result: "skipped", Handled: true}
+	}
 	// a fatal error of the Go runtime (stack overflow by unbounded recursion, concurrent map access) cannot be recovered:
 	// leave the input on disk so that the check can report it
 	if b, err := json.Marshal(map[string]interface{}{"entry": sc.Entry, "path": sc.Path, "family": sc.Family, "body": sc.Body, "send": sc.Send, "config": sc.Cfg, "world": sc.World}); err == nil {
@@ -106,8 +113,12 @@ func runWatched(sc *scenario) runResult {
 	go func() { ch <- runScenario(sc) }()
 	select {
 	case res := <-ch:
+		if strings.HasPrefix(res.PanicMsg, "runaway") {
+			c11Runaways++
+		}
 		return res
 	case <-time.After(20 * time.Second):
+		c11Runaways++
 		return runResult{Result: "hang", Handled: true, PanicMsg: "did not return within 20 s"}
 	}
 }
